@@ -903,7 +903,34 @@ func (g *gen) cyclic(p *plan, grow bool) []insn {
 		if seqLen(c) == 0 {
 			return nil
 		}
-		switch r.Intn(4) {
+		switch r.Intn(9) {
+		case 4:
+			p.op(opcode.UNPACK)
+		case 5:
+			p.op(opcode.VALUES)
+		case 6:
+			if isMap {
+				p.op(opcode.KEYS)
+			} else {
+				t := stackitem.ArrayT
+				if _, a := c.(*stackitem.Array); a {
+					t = stackitem.StructT
+				}
+				p.op(opcode.CONVERT, byte(t))
+			}
+		case 7:
+			if isMap {
+				return nil
+			}
+			p.op(opcode.REVERSEITEMS)
+		case 8: // a struct that reaches the container is cloned into it
+			if isMap {
+				return nil
+			}
+			p.op(opcode.DUP)
+			p.op(opcode.DUP)
+			p.op(opcode.CONVERT, byte(stackitem.StructT))
+			p.op(opcode.APPEND)
 		case 0:
 			if isMap {
 				p.keyOf(c)
